@@ -24,6 +24,7 @@ import (
 type deviation struct {
 	name string
 	run  func(rng *rand.Rand, a *arena) (applied bool)
+	virt bool // needs the live virtual channel H-M through the hub V
 }
 
 // holdFromM keeps back M's envelopes selected by pick and returns a function delivering them.
@@ -68,7 +69,7 @@ func waitUntil(d time.Duration, cond func() bool) bool {
 func acceptErrs(p *party.Party) int { return len(p.AcceptErrors()) }
 
 var deviations = []deviation{
-	{"late/sub-channel-funding-after-the-accept-gave-up", func(rng *rand.Rand, a *arena) bool {
+	{name: "late/sub-channel-funding-after-the-accept-gave-up", run: func(rng *rand.Rand, a *arena) bool {
 		parent := a.chM.ID()
 		nLocked := len(a.chM.State().Locked)
 		release, held := holdFromM(a, func(e *wire.Envelope) bool {
@@ -90,7 +91,7 @@ var deviations = []deviation{
 		a.M.SetTimeout(20 * time.Second)
 		return ok && n > 0
 	}},
-	{"late/sub-channel-settlement-after-settle-gave-up", func(rng *rand.Rand, a *arena) bool {
+	{name: "late/sub-channel-settlement-after-settle-gave-up", run: func(rng *rand.Rand, a *arena) bool {
 		sub, err := a.M.OpenSubChannel(a.chM, bals(len(a.w.Assets), 2, 2), 10)
 		if err != nil {
 			return false
@@ -129,7 +130,7 @@ var deviations = []deviation{
 		n := release()
 		return ok && vGaveUp && n > 0
 	}},
-	{"late/update-accept-after-the-update-gave-up", func(rng *rand.Rand, a *arena) bool {
+	{name: "late/update-accept-after-the-update-gave-up", run: func(rng *rand.Rand, a *arena) bool {
 		id := a.chM.ID()
 		release, held := holdFromM(a, func(e *wire.Envelope) bool {
 			m, ok := e.Msg.(*client.ChannelUpdateAccMsg)
@@ -142,7 +143,42 @@ var deviations = []deviation{
 		n := release()
 		return ok && n > 0
 	}},
-	{"opening/version-0-signature-replaced", func(rng *rand.Rand, a *arena) bool {
+	{name: "late/virtual-settlement-after-the-partner-was-refused", virt: true, run: func(rng *rand.Rand, a *arena) bool {
+		// Both participants settle the virtual channel, but M's settlement proposal reaches the hub
+		// only after the hub has given up waiting for it (10 s) and refused the partner's.
+		virtH := a.H.Channel(a.virtM.ID())
+		if virtH == nil {
+			return false
+		}
+		if err := a.H.Pay(virtH, 0, 0, true); err != nil {
+			return false
+		}
+		release, held := holdFromM(a, func(e *wire.Envelope) bool {
+			_, ok := e.Msg.(*client.VirtualChannelSettlementProposalMsg)
+			return ok
+		})
+		a.M.SetTimeout(40 * time.Second)
+		a.H.SetTimeout(40 * time.Second)
+		errs := make(chan error, 2)
+		go func() { ctx, c := a.M.Ctx(); defer c(); errs <- a.virtM.Settle(ctx, false) }()
+		go func() { ctx, c := a.H.Ctx(); defer c(); errs <- virtH.Settle(ctx, false) }()
+		// the partner's proposal is refused after the hub's matching wait
+		select {
+		case <-errs:
+		case <-time.After(25 * time.Second):
+		}
+		ok := held() > 0
+		n := release()
+		// give M's late proposal its own wait at the hub
+		select {
+		case <-errs:
+		case <-time.After(25 * time.Second):
+		}
+		a.M.SetTimeout(20 * time.Second)
+		a.H.SetTimeout(20 * time.Second)
+		return ok && n > 0
+	}},
+	{name: "opening/version-0-signature-replaced", run: func(rng *rand.Rand, a *arena) bool {
 		// M answers the version-0 signature exchange of a new channel with something else
 		variant := rng.Intn(5)
 		var mu sync.Mutex
@@ -185,7 +221,7 @@ var deviations = []deviation{
 		defer mu.Unlock()
 		return fired
 	}},
-	{"opening/proposal-accept-replaced", func(rng *rand.Rand, a *arena) bool {
+	{name: "opening/proposal-accept-replaced", run: func(rng *rand.Rand, a *arena) bool {
 		// M answers V's ledger channel proposal with an accept of another kind / twice / after a reject
 		variant := rng.Intn(4)
 		var mu sync.Mutex
@@ -227,7 +263,10 @@ var deviations = []deviation{
 // deviationCase runs one protocol deviation and the probes.
 func deviationCase(s sink.Sink, em *childrun.Emitter, rng *rand.Rand, idx int, sample bool) {
 	d := deviations[rng.Intn(len(deviations))]
-	a, msg := newArena(rng, false, false)
+	if d.virt && rng.Intn(3) != 0 {
+		d = deviations[rng.Intn(3)] // the virtual channel cases take half a minute each: fewer of them
+	}
+	a, msg := newArena(rng, false, d.virt)
 	if a == nil {
 		s.Inconclusive("arena setup failed: " + msg)
 		return
